@@ -168,7 +168,9 @@ def explore(hspec, tier, shard_index):
                     try:
                         msg = str(exc)
                     except Exception:
-                        msg = type(exc).__name__
+                        msg = ''
+                    if kind == 'exception':
+                        msg = ('%s: %s' % (type(exc).__name__, msg)).rstrip(': ')
                     res['failing'] += 1
                     res['counterexample'] = dict(kind=kind, exc_type=type(exc).__name__, message=msg[:2000],
                                                  args=cargs, fixed=_jsonable(shard),
